@@ -654,6 +654,25 @@ fn config_grid() -> Vec<String> {
     std::panic::set_hook(hook);
     bad
 }
+/// C08 (bounded: 70 000 calls): per-entry bookkeeping that is shared by all updates of one key (`EntryInfo`) must survive more than
+/// 2^16 updates of that key without an internal panic (e.g. a narrow generation counter overflowing), and the counters stay exact.
+fn many_updates_of_one_key() -> Vec<String> {
+    use std::panic::{catch_unwind, AssertUnwindSafe};
+    let mut bad = Vec::new();
+    let hook = std::panic::take_hook(); std::panic::set_hook(Box::new(|_| {}));
+    let r = catch_unwind(AssertUnwindSafe(|| {
+        let c: Cache<u8, u32> = Cache::builder().max_capacity(10).build();
+        for i in 0..70_000u32 { c.insert(1, i); if i % 997 == 0 { c.sync(); } }
+        c.sync();
+        (c.get(&1), c.entry_count(), c.weighted_size())
+    }));
+    std::panic::set_hook(hook);
+    match r {
+        Err(_) => bad.push("70 000 updates of one key: the library panicked".to_string()),
+        Ok((v, ec, ws)) => if v != Some(69_999) || ec != 1 || ws != 1 { bad.push(format!("70 000 updates of one key: get -> {:?}, entry_count {}, weighted_size {}", v, ec, ws)); }
+    }
+    bad
+}
 #[test]
 fn verif_rt_sync() {
     let tier = std::env::var("VERIF_RT_TIER").unwrap_or_else(|_| "quick".into());
@@ -768,6 +787,7 @@ fn verif_rt_sync() {
         }}}
     }
     for b in config_grid() { println!("RT-FAIL tags=C17 what=[sync cache] {} cfg=- failing_op_index=0 history=[]", b); findings += 1; if findings >= 3 { break; } }
+    for b in many_updates_of_one_key() { println!("RT-FAIL tags=C08 what=[sync cache] {} cfg=- failing_op_index=0 history=[]", b); findings += 1; }
     println!("RT-SUMMARY harness=sync tier={} seed={} histories={} steps={} configs={} alphabet={} exhaustive_len={} sampled={}x{} findings={}",
         tier, seed, histories, steps, cfgs.len(), ops_a.len(), exh_len, rnd_n, rnd_len, findings);
     assert!(findings == 0, "runtime check of the concurrent cache (sequential histories) found {} violation(s)", findings);
